@@ -252,7 +252,7 @@ def run_misc():
 
 def replay(case, key):
     out = _res()
-    for f in (run_errors, run_recovery, run_misc, run_actions, run_layout, run_dyn_disambiguation, run_items, run_closure_follow, run_scanner):
+    for f in (run_errors, run_recovery, run_misc, run_actions, run_layout, run_dyn_disambiguation, run_items, run_closure_follow, run_scanner, run_gss):
         r = f()
         out["violations"].extend(r["violations"])
     return out
@@ -335,7 +335,8 @@ def run_layout():
         for t in itertools.product("a \t", repeat=L):
             text = "".join(t)
             for pos in range(0, L + 2):
-                configs = [("ws=" + repr(ws), NS(layout_parser=None, ws=ws, debug=False)) for ws in (None, "", " ", " \t")]
+                configs = [("ws=" + repr(ws), NS(layout_parser=None, ws=ws, debug=False))
+                           for ws in (None, "", " ", " \t", " a", "a")]       # (ws may hold any character)
                 configs += [(f"LAYOUT parser stops at +{d}", NS(layout_parser=LP(lambda p, n, d=d: min(p + d, max(n, p))),
                                                                 ws=" ", debug=False)) for d in (0, 1, 2)]
                 for cname, stub in configs:
@@ -581,3 +582,45 @@ class _SymDict(dict):
 
     def __len__(self):
         return len(self._syms)
+
+
+def run_gss():
+    """companion of contracts/gss.py: the real GSSNode, constructed over every combination of (look-ahead present /
+    absent) x (layout before / after empty or not), then for_token with the same / another / a first token: same node
+    or a clone that differs in nothing but the token, with a COPY of the parent links"""
+    from parglare.glr import GSSNode
+    out = _res()
+    state = NS(state_id=7)
+    t1, t2 = NS(symbol="a", value="x"), NS(symbol="b", value="xy")
+    for ahead, lc, lca, links in itertools.product((None, t1), ("", " "), ("", "\n "), (0, 2)):
+        for tok in (t1, t2):
+            out["evaluations"] += 1
+            n = GSSNode("f.txt", "input", state, 3, 5, {"k": 1}, ambiguity=1, token_ahead=ahead, layout_content=lc,
+                        layout_content_ahead=lca, debug=False)
+            key = {"token_ahead": None if ahead is None else ahead.symbol, "layout_content": lc,
+                   "layout_content_ahead": lca, "links": links, "for_token": tok.symbol}
+            if (n.state, n.position, n.frontier, n.input_str, n.file_name, n.token_ahead, n.layout_content,
+                    n.layout_content_ahead, n.id, n.parents) != (state, 3, 5, "input", "f.txt", ahead, lc, lca, "5_7", {}):
+                _viol(out, "GSSNode.__init__", key, "fields / id after construction")
+                continue
+            for i in range(links):
+                n.parents[f"4_{i}"] = object()
+            before = dict(n.parents)
+            r = n.for_token(tok)
+            same = ahead is None or ahead is tok
+            out["nontrivial"] += 0 if same else 1
+            ok = r.token_ahead is tok and (r is n) == same
+            ok = ok and (r.state, r.position, r.frontier, r.input_str, r.file_name, r.extra, r.layout_content,
+                         r.layout_content_ahead, r.id) == (state, 3, 5, "input", "f.txt", n.extra, lc, lca, "5_7")
+            ok = ok and r.parents == before and n.parents == before
+            if not same:
+                ok = ok and r.parents is not n.parents and n.token_ahead is ahead
+                r.parents["late"] = object()           # a link added to the clone later must not reach the original
+                ok = ok and "late" not in n.parents
+            if not ok:
+                _viol(out, "GSSNode.for_token", key, {"same_node": r is n, "layout_content_ahead": r.layout_content_ahead,
+                                                     "links": len(r.parents)})
+    out["covers"] = ["GSSNode.__init__", "GSSNode.for_token"]
+    out["rule"] = ("companion of contracts/gss.py: real GSSNode x look-ahead {none, t1} x layout before/after {empty, not} x "
+                   "{0, 2} parent links x for_token {t1, t2}")
+    return out
